@@ -173,11 +173,24 @@ def _falsy(x):
     return not x
 
 
+def _recip(x):
+    return 1 / x > 0
+
+
+def _head(x):
+    return x[0] == 'a'
+
+
+def _boom_attr(x):
+    raise AttributeError('boom')
+
+
 def _boom(x):
     raise ValueError('boom')
 
 
-PRED_FN = {'yes': _yes, 'no': _no, 'zero': _zero, 'truthy': _truthy, 'isnum': _isnum, 'falsy': _falsy, 'boom': _boom}
+PRED_FN = {'yes': _yes, 'no': _no, 'zero': _zero, 'truthy': _truthy, 'isnum': _isnum, 'falsy': _falsy, 'boom': _boom, 'recip': _recip, 'head': _head,
+           'boom_attr': _boom_attr}
 
 
 class Ctx:
